@@ -16,6 +16,9 @@ Event scripts (JSON-able lists):
             ['I']           nothing arrives: select()/poll() waits the whole timeout, returns empty
 
 A script that runs out behaves like an endless sequence of ['T'] / ['I'].
+RMCP: the datagrams of a script that a request did not read STAY in the socket (`FakeSock.arrived`) and
+are what the next request on the same interface object reads first (a UDP socket queues what it receives);
+a non-blocking read (`settimeout(0)`) sees only those.
 Time is virtual and counted in ticks of 1/64 s so that every value the code computes
 (`0.25 - (now - start)`) is exact in binary floating point.
 
@@ -168,18 +171,31 @@ def rmcp_queue(iface):
     return [bytes(bytearray(x)) for x in list(iface._q.queue)]
 
 
+def sock_events(evs):
+    """the datagrams among `evs` (a period of silence leaves nothing in a socket)"""
+    return [list(e) for e in evs if e[0] != 'T']
+
+
 def run_rmcp(iface, req, events):
     """One request on a (possibly used) Rmcp object.  req = dict(rs_sa, netfn, lun, cmd,
-    payload(hex), routing).  Returns what the property observes."""
+    payload(hex), routing).  `events` is what the network delivers from the moment the request is
+    sent; what EARLIER requests on this object did not read is still in the socket's receive queue
+    (`arrived`) and is what a read sees first.  Returns what the property observes."""
     sock = iface._sock
+    sock.arrived = sock.arrived + sock_events(sock.script)
+    pre_sock = [list(e) for e in sock.arrived]
     sock.script = [list(e) for e in events]
     sock.sent = []
-    sock.consumed = 0
+    sock.consumed = sock.taken = sock.drained = 0
     tgt = make_target(req['rs_sa'], req.get('routing'))
     raw = bytes([req['cmd']]) + bytes.fromhex(req.get('payload', ''))
     out = _outcome(lambda: iface.send_and_receive_raw(tgt, req['lun'], req['netfn'], raw))
-    return {'out': out, 'tx': [rmcp_payload(p) for p in sock.sent], 'consumed': sock.consumed,
-            'seq': iface.next_sequence_number, 'queue': rmcp_queue(iface)}
+    # what the blocking reads of this request were given, in order: (rest of) the old socket content, then arrivals
+    seen = pre_sock[sock.drained:sock.drained + sock.taken] + [list(e) for e in events[:sock.consumed]]
+    return {'out': out, 'tx': [rmcp_payload(p) for p in sock.sent], 'consumed': sock.taken + sock.consumed,
+            'seq': iface.next_sequence_number, 'queue': rmcp_queue(iface), 'pre_sock': pre_sock,
+            'drained': sock.drained, 'seen': seen, 'left': [list(e) for e in sock.arrived] + sock_events(sock.script),
+            'timeout_after': sock.timeout}
 
 
 # ------------------------------------------------------------------ virtual time
@@ -357,5 +373,27 @@ def run_i2c(rig, req, events):
     tgt = Target(req['rs_sa'])
     raw = bytes([req['cmd']]) + bytes.fromhex(req.get('payload', ''))
     out = _outcome(lambda: rig.iface.send_and_receive_raw(tgt, req['lun'], req['netfn'], raw))
+    return {'out': out, 'tx': rig.tx_frames(), 'consumed': rig.s.consumed,
+            'seq': rig.iface.next_sequence_number, 'sleeps': list(rig.clock.sleeps)}
+
+
+def run_i2c_probe(rig, rs_sa, events):
+    """`is_ipmc_accessible(Target(rs_sa))` on an IpmbDevRig / AardvarkRig: one request/response exchange."""
+    rig.s.script = [list(e) for e in events]
+    rig.s.sent = []
+    rig.s.consumed = 0
+    rig.s.pending = None
+    rig.clock.sleeps = []
+    from pyipmi import Target
+    tgt = Target(rs_sa)
+
+    def probe():
+        r = rig.iface.is_ipmc_accessible(tgt)
+        if r is not True:
+            raise ValueError('is_ipmc_accessible returned %r' % (r,))
+        return b''
+    out = _outcome(probe)
+    if out[0] == 'py:OSError' or out[0] == 'py:IOError':
+        out = ('py:OSError',)
     return {'out': out, 'tx': rig.tx_frames(), 'consumed': rig.s.consumed,
             'seq': rig.iface.next_sequence_number, 'sleeps': list(rig.clock.sleeps)}
